@@ -560,3 +560,77 @@ Definition site_uniform (s : lockstep_site) : bool :=
   negb (Nat.eqb (List.length members) 0) && forallb (block_uniform members) blocks && forallb (derived_ok members blocks) derived.
 Definition members_equal (members : list string) (st : lens) : Prop :=
   forall m m', In m members -> In m' members -> st m = st m'.
+
+(* ------------------------------------------------------------------------------------------ *)
+(** * 7. Span pushes at the shared batches of the two span insert services *)
+
+(* service/impl/tempoInsertService.go: each of the two ProcessRequest closures appends, per column, the slice of one field
+   of the request (the fields regenerated as gen_spans_consumed / gen_attrs_consumed) *)
+Definition span_request (who : Z) (consumed : list string) (m : cols) : sreq :=
+  {| sr_client := who; sr_cols := map (field_len m) consumed |}.
+
+(* harness sharedbatch, span pairs: both clients push Zipkin JSON spans (k spans with t tags each; a refused body when bad);
+   tables 6 = tempo_traces, 7 = tempo_traces_attrs_gin *)
+Record shscase := { shs_id : Z; shs_a_spans : N; shs_b_spans : N; shs_a_bad : bool; shs_b_bad : bool; shs_obs : shobs }.
+Definition shs_spec_ok (c : shscase) : bool :=
+  let o := shs_obs c in
+  let stored := sumN (map (fun b => hd 0%N (snd b)) (filter (fun b => negb (fst b)) (table_blocks 6 o))) in
+  (if shs_a_bad c then negb (accepts (Exact C2xx) (so_a o)) && responded (so_a o) else accepts (Exact C2xx) (so_a o))
+  && (if shs_b_bad c then negb (accepts (Exact C2xx) (so_b o)) && responded (so_b o) else accepts (Exact C2xx) (so_b o))
+  && forallb (fun x => negb (snd (fst x)) && all_equal (snd x)) (so_blocks o)
+  && N.eqb stored ((if shs_a_bad c then 0 else shs_a_spans c) + (if shs_b_bad c then 0 else shs_b_spans c))%N.
+Definition shs_spec_violations (cs : list shscase) : list Z := map shs_id (filter (fun c => negb (shs_spec_ok c)) cs).
+
+(* ------------------------------------------------------------------------------------------ *)
+(** * 8. The multipart form of /ingest at framing level *)
+
+(* pProfProtoDec.Decode after the query parameters: the whole body is read; findBoundary takes the first line "--" + a token of
+   [A-Za-z0-9'-] (the boundary parameter of the Content-Type header is not looked at); mime/multipart ReadForm wants every part
+   delimited and the closing delimiter; form.File["profile"][0] = the first part with that name AND a filename; its content goes
+   through Decompressor(100000): gzip, at least 1 and at most 100000 inflated bytes; then unmarshal.Parse (section 5: a second
+   gzip layer is refused, the payload limit applies) and the profile parser.  mime/multipart and compress/gzip are modelled as read. *)
+Inductive mcontent := McProfile | McNested | McEmpty | McGarbage | McNotGzip.
+(* mp_inflated: what the gzip layer of the file inflates to; McNested: the file is a gzip stream of a gzip-compressed profile
+   (what pprof writes, compressed once more by the client): the Decompressor takes the first layer, Parse the second (mp_inflated2) *)
+Record mpart := { mp_name : string; mp_file : bool; mp_content : mcontent; mp_inflated : Z; mp_inflated2 : Z }.
+Record mform := { mf_boundary_ok : bool; mf_closed : bool; mf_parts : list mpart }.
+Definition mform_field : string := "profile".
+Definition decompressor_limit : Z := 100000.
+Definition mform_source_model : list string := [mform_field; "100000"; "(?m)^--([A-Za-z0-9'-]+)\r?\n"].
+Definition mform_file (f : mform) : option mpart :=
+  find (fun p => String.eqb (mp_name p) mform_field && mp_file p) (mf_parts f).
+Definition mform_accepts (limit : Z) (f : mform) : bool :=
+  mf_boundary_ok f && mf_closed f &&
+  match mform_file f with
+  | Some p => match mp_content p with
+              | McProfile => (0 <? mp_inflated p)%Z && (mp_inflated p <=? decompressor_limit)%Z
+              | McNested => (0 <? mp_inflated p)%Z && (mp_inflated p <=? decompressor_limit)%Z && (mp_inflated2 p <=? limit)%Z
+              | _ => false
+              end
+  | None => false
+  end.
+Definition mform_predict (limit : Z) (f : mform) : expect := if mform_accepts limit f then Exact C2xx else AnyError.
+(* bytes inflated for the request: the first gzip layer of the chosen file within the Decompressor's bound (+1 to notice the
+   excess), and a second layer within the payload limit *)
+Definition mform_inflated (limit : Z) (f : mform) : Z :=
+  if mf_boundary_ok f && mf_closed f
+  then match mform_file f with
+       | Some p => match mp_content p with
+                   | McNotGzip => 0%Z
+                   | McNested => (Z.min (mp_inflated p) (decompressor_limit + 1) + Z.min (mp_inflated2 p) limit)%Z
+                   | _ => Z.min (mp_inflated p) (decompressor_limit + 1)
+                   end
+       | None => 0%Z
+       end
+  else 0%Z.
+
+Record mfcase := { mc_id : Z; mc_form : mform; mc_limit : Z; mc_obs : obs }.
+Definition mf_mismatches (cs : list mfcase) : list Z :=
+  map mc_id (filter (fun c => negb (accepts (mform_predict (mc_limit c) (mc_form c)) (ob_outcome (mc_obs c)))) cs).
+(* the oracle: answered, later requests served, allocation within the allowance, a form without an acceptable profile not acknowledged *)
+Definition mf_spec_ok (c : mfcase) : bool :=
+  let ob := mc_obs c in
+  responded (ob_outcome ob) && ob_canary_ok ob && (ob_alloc_kb ob <=? alloc_bound_kb (served_kb ob))%Z
+  && (mform_accepts (mc_limit c) (mc_form c) || negb (accepts (Exact C2xx) (ob_outcome ob))).
+Definition mf_spec_violations (cs : list mfcase) : list Z := map mc_id (filter (fun c => negb (mf_spec_ok c)) cs).
+
